@@ -198,6 +198,25 @@ mutual
     | v :: vs => hasPoison v || hasPoisonList vs
 end
 
+mutual
+  def Val.beq : Val → Val → Bool
+    | .int w n, .int w' n' => decide (w = w') && decide (n = n')
+    | .bool b, .bool b' => b == b'
+    | .tup vs, .tup vs' => Val.beqList vs vs'
+    | .enm t v, .enm t' v' => decide (t = t') && Val.beq v v'
+    | .poison _, .poison _ => true
+    | _, _ => false
+  def Val.beqList : List Val → List Val → Bool
+    | [], [] => true
+    | v :: vs, v' :: vs' => Val.beq v v' && Val.beqList vs vs'
+    | _, _ => false
+end
+
+def envBeq : List (String × Val) → List (String × Val) → Bool
+  | [], [] => true
+  | (x, v) :: r, (x', v') :: r' => decide (x = x') && Val.beq v v' && envBeq r r'
+  | _, _ => false
+
 /-- Which failing operations are a bare trapping VM instruction whose result may be unused (and which the
 real compiler then deletes, in both profiles): 64/256-bit `+ - *` and every `/ %`. The narrow `+ - *` feed
 their result into the range check (`__gt … __revert(0)`), which is never dead. -/
@@ -453,6 +472,19 @@ def idxVal (a i : Val) (s : St) : Res Val :=
   | .tup _, .poison _ => failS .invalid s
   | _, _ => failS .stuck s
 
+/-- (lenient runs only) `if <poison> { t } else { e }`: the condition is unknown, so the `if` is a possible
+behaviour only when it does not matter — both branches finish normally with the same logs, environment and
+remaining skips (the compiler then deletes the whole `if`, and with it the trapping operation feeding it). -/
+def bothBranches (r1 r2 : Res Val) (s : St) : Res Val :=
+  match r1, r2 with
+  | .oof, _ => .oof
+  | _, .oof => .oof
+  | .ok v1 s1, .ok v2 s2 =>
+    if decide (s1.logs = s2.logs) && envBeq s1.env s2.env && decide (s1.skip = s2.skip) then
+      .ok (if Val.beq v1 v2 then v1 else .poison .u8) s1
+    else .fail .invalid s.logs
+  | _, _ => .fail .invalid s.logs
+
 def asBool (v : Val) (s : St) (k : Bool → Res Val) : Res Val :=
   match v with
   | .bool b => k b
@@ -481,8 +513,10 @@ def stepE : Expr → St → Res Val
   | .proj a i, s => (rE a s).bind fun va s => projVal va i s
   | .idx a i, s => (rE a s).bind fun va s => (rE i s).bind fun vi s => idxVal va vi s
   | .enm t a, s => (rE a s).bind fun va s => .ok (.enm t va) s
-  | .ite c t e, s => (rE c s).bind fun vc s => asBool vc s fun x =>
-      if x then inScope rB t s else inScope rB e s
+  | .ite c t e, s => (rE c s).bind fun vc s =>
+      match vc with
+      | .poison _ => bothBranches (inScope rB t s) (inScope rB e s) s
+      | _ => asBool vc s fun x => if x then inScope rB t s else inScope rB e s
   | .block b, s => inScope rB b s
   | .call f args, s => (rEs args s).bind fun vs s =>
       match findFn fns f with
